@@ -271,6 +271,20 @@ def gen_boundary(g, bs, opt):
     return out
 
 
+def gen_vmfail(rng, g, opt):
+    """Virtual-memory failure: under an address-space limit (harness command `V mb`) a huge request must fail with an error
+    and leave the allocator consistent (statistics, later allocations, releases). Not modelled: monitor only."""
+    h = Hist(g, 65536, opt, "vmfail")
+    h.monitor_only = True
+    h.ops = [("A", 100), ("A", 5000), ("W", 0), ("V", 96), ("A", 1000000000), ("T",), ("A", 64), ("A", 1 << 30), ("T",), ("R", 1),
+             ("A", 200), ("V", 0), ("A", 300000), ("T",), ("D",), ("V", 64), ("A", 1500000000), ("Z", 1), ("A", 2000000000), ("V", 0),
+             ("A", 70000), ("T",), ("D",)]
+    for _ in range(30):
+        h.ops.append(("A", rng.randint(1, 4000)))
+    h.ops += [("T",), ("D",)]
+    return h
+
+
 # ------------------------------------------------------------------ running
 def run_exe(exe, args, lines, timeout=3000):
     rc, out, err = vlib.sh([exe] + args, inp="\n".join(lines) + "\n", timeout=timeout)
@@ -290,7 +304,7 @@ def split_impl(lines):
     return ans, mon
 
 
-def run_histories(impl, model, vbits, hists, shards=16, model_out=None):
+def run_histories(impl, model, vbits, hists, shards=16, model_out=None, timeout=3000):
     """Returns per history: (impl answers, monitor lines [(op index, text)], model answers)."""
     shards = max(1, min(shards, len(hists)))
     groups = [list(range(i, len(hists), shards)) for i in range(shards)]
@@ -301,9 +315,9 @@ def run_histories(impl, model, vbits, hists, shards=16, model_out=None):
             ls = hists[hi].lines()
             spans.append((hi, len(lines), len(ls)))
             lines += ls
-        rci, outi, erri = run_exe(impl, [], lines)
+        rci, outi, erri = run_exe(impl, [], lines, timeout=timeout)      # a deadlocked harness must not stall the check
         if model_out is None:
-            rcm, outm, errm = run_exe(model, [str(vbits)], lines)
+            rcm, outm, errm = run_exe(model, [str(vbits)], lines, timeout=timeout)
         else:
             rcm, errm, outm = 0, "", []
             for hi in idx:
@@ -349,6 +363,88 @@ def run_model_only(model, vbits, hists, shards=16):
         for r in ex.map(one, groups):
             out.update(r)
     return [out.get(i, []) for i in range(len(hists))]
+
+
+def judge_events(h, a):
+    """Translate the implementation's answers of one history into events of the proven trace judge (JitSpec.v).
+    Returns (lines for `c09 spec`, [op index of each event])."""
+    lines = h.lines()
+    if not a or not a[0].startswith("H "):
+        return None, None
+    t0 = a[0].split()
+    if len(t0) < 5 or t0[2] == "0":
+        return None, None
+    out = ["C %s %s %d" % (t0[3], t0[2], 0 if h.opt & NOPAD else 1)]
+    where = []
+    table = []
+    for i in range(1, min(len(lines), len(a))):
+        l, x = lines[i].split(), a[i].split()
+        if not x or x[0] in ("P", "CRASH") or len(x) < 2:
+            break
+        if x[1] == "crash":
+            break
+        if l[0] == "A":
+            if x[1] == "ok" and len(x) >= 12:
+                table.append([x[2], x[3], True])
+                out.append("a %s %s %s %s %s %s" % (l[1], x[2], x[3], x[4], x[10], x[11])); where.append(i)
+            else:
+                table.append(None)
+        elif l[0] == "R" and x[1] == "ok":
+            e = table[int(l[1])]
+            out.append("r %s %s" % (e[0], e[1])); where.append(i); e[2] = False
+        elif l[0] == "S" and x[1] == "ok":
+            e = table[int(l[1])]
+            if l[2] == "0":
+                out.append("r %s %s" % (e[0], e[1])); e[2] = False
+            else:
+                out.append("s %s %s %s" % (e[0], e[1], x[2]))
+            where.append(i)
+        elif l[0] == "Z":
+            out.append("z"); where.append(i)
+            if len(x) >= 3 and x[2].isdigit():
+                out.append("t %s" % x[2]); where.append(i)
+        elif l[0] == "T" and len(x) >= 3 and x[2].isdigit():
+            out.append("t %s" % x[2]); where.append(i)
+    out.append("E")
+    return out, where
+
+
+def run_judge(ck, model, hist_answers, stats, shards=16):
+    """hist_answers: list of (Hist, impl answers). Runs the extracted, proven judge; reports rejected traces."""
+    jobs = []
+    for (h, a) in hist_answers:
+        ev, where = judge_events(h, a)
+        if ev is not None:
+            jobs.append((h, a, ev, where))
+    shards = max(1, min(shards, len(jobs)))
+    groups = [jobs[i::shards] for i in range(shards)]
+
+    def one(group):
+        lines = []
+        for (_h, _a, ev, _w) in group:
+            lines += ev
+        rc, out, err = run_exe(model, ["spec"], lines, timeout=1500)
+        return out
+    nev = 0
+    with ThreadPoolExecutor(max_workers=shards) as ex:
+        for group, out in zip(groups, ex.map(one, groups)):
+            if len(out) != len(group):
+                ck.violation("C09/harness-crash", "trace judge answered %d of %d traces" % (len(out), len(group)), {"broken": "c09 spec run"}, no_input=True)
+                continue
+            for (h, a, ev, where), verdict in zip(group, out):
+                nev += len(ev) - 2
+                t = verdict.split()
+                if t[:2] == ["J", "ok"]:
+                    continue
+                k = where[int(t[2])] if len(t) > 2 and int(t[2]) < len(where) else 0
+                ls = h.lines()
+                key = "C09/judge/" + ev[int(t[2]) + 1].split()[0] if len(t) > 2 else "C09/judge"
+                ck.violation(key, "the proven trace judge (JitSpec.spec_run: live spans pairwise disjoint, aligned, inside the block, at least as "
+                             "large as requested, allocation count) rejects the implementation's answer %r to op %d (%s) of a %s history with config %s"
+                             % (a[k], k, ls[k], h.tag, ls[0]),
+                             {"config": ls[0], "tag": h.tag, "variant_bits": stats["vbits"], "history": ls[:k + 1] + ["X"], "impl": a[max(0, k - 3):k + 1]})
+    stats["judge_events"] = nev
+    stats["judge_traces"] = len(jobs)
 
 
 def detect_defects(ck, impl):
@@ -595,8 +691,10 @@ def run(ck):
            % (n_corpus, n_directed, n_exh, depth, n_random, total_lines))
 
     # large pages are not modelled (block sizes depend on the host): those histories are judged by the monitor only
-    modelled = [h for h in hists if not (h.opt & LARGE)]
-    unmodelled = [h for h in hists if h.opt & LARGE]
+    for opt in (0, DUAL, MULTI | FILL, IMM | NOPAD):
+        hists.append(gen_vmfail(rng, 64, opt))
+    modelled = [h for h in hists if not (h.opt & LARGE) and not getattr(h, "monitor_only", False)]
+    unmodelled = [h for h in hists if (h.opt & LARGE) or getattr(h, "monitor_only", False)]
 
     stats = {"ops": {}, "nontrivial": 0, "disagreements": 0, "q_oob": 0, "known_reports": {}, "vbits": vbits,
              "shrunk": set(), "impl": impl, "model": model}
@@ -622,7 +720,7 @@ def run(ck):
                 ncut += 1
         model_pre = pre
         ck.notes.append("%d histories cut before their first operation in a window-unsound state (defect full-block-keeps-incremental-flag present)" % ncut)
-    res, errors = run_histories(impl, model, vbits, modelled, model_out=model_pre)
+    res, errors = run_histories(impl, model, vbits, modelled, model_out=model_pre, timeout=(600 if quick else 1500))
     compared = 0
     cut_histories = 0
     for hi, h in enumerate(modelled):
@@ -632,6 +730,7 @@ def run(ck):
         if "P" in a or "U" in m:
             cut_histories += 1
         compared += judge_history(ck, h, hi, a, mo, m, n, present, stats)
+    run_judge(ck, model, [(h, res[hi][0]) for hi, h in enumerate(modelled) if hi in res], stats)
     for (kind, v) in errors:
         # a harness that died: attribute to the histories of that shard unless a known defect explains a crash
         if kind == "impl_error" and "soft-reset-stale-tree-links" in present:
@@ -646,16 +745,21 @@ def run(ck):
         lines = []
         for h in unmodelled:
             lines += h.lines()
-        rc, out, err = run_exe(impl, [], lines)
+        rc, out, err = run_exe(impl, [], lines, timeout=(600 if quick else 1500))
         ans, mon = split_impl(out)
         mon_only_ops = len(ans)
+        vm_failures = 0
+        for l, x in zip(lines, ans):
+            if l in ("A 1000000000", "A 1073741824", "A 1500000000", "A 2000000000") and x.split()[1:2] == ["oom"]:
+                vm_failures += 1
+        stats["vm_failures_reported_as_errors"] = vm_failures
         for (k, text) in mon:
             key = monitor_key(text)
             slug = next((s for s in EXPLAINS.get(key, []) if s in present), None)
             if slug:
                 ck.violation("C09/known/" + slug, text, {"history": "large-page stream", "monitor": text})
             else:
-                ck.violation("C09/" + key, "independent monitor (large-page options, not modelled): %s" % text,
+                ck.violation("C09/" + key, "independent monitor (large-page / VM-failure histories, not modelled): %s" % text,
                              {"history": lines[:k + 2], "monitor": text})
         if rc != 0 and "soft-reset-stale-tree-links" not in present:
             ck.violation("C09/harness-crash", "harness died on the large-page stream rc=%s" % rc, {"broken": "harness run"}, no_input=True)
@@ -685,8 +789,9 @@ def run(ck):
          "samples": samples, "ops_by_kind": stats["ops"], "histories": len(hists),
          "histories_by_source": {"corpus": n_corpus, "directed": n_directed, "bounded_exhaustive": n_exh, "random": n_random},
          "traces_validated_against_impl": len(modelled), "ops_compared_with_model": compared,
-         "ops_monitor_only_large_pages": mon_only_ops, "histories_cut_at_known_defect": cut_histories,
+         "ops_monitor_only_large_pages_and_vm_failure": mon_only_ops, "vm_failures_reported_as_errors": stats.get("vm_failures_reported_as_errors", 0), "histories_cut_at_known_defect": cut_histories,
          "queries_outside_block_not_compared": stats["q_oob"],
+         "traces_judged_by_proven_checker": stats.get("judge_traces", 0), "events_judged_by_proven_checker": stats.get("judge_events", 0),
          "model_vs_impl_disagreements": stats["disagreements"], "model_variant_bits": vbits,
          "defects_present_by_probe": sorted(present), "known_defect_reports": stats["known_reports"],
          "option_sets": optsets, "granularities": grans},
